@@ -47,6 +47,7 @@ PROBES = ATTACKS + ["both_complete_same", "sentinel_seen",
                     "client_aborted_on_sentinel", "fallback_refused",
                     "resumption", "hrr", "tls13_base", "tls12_base",
                     "fallback_with_session", "ticket_compared",
+                    "close_after_attack",
                     "sentinel_tls12_server"]
 COMPONENTS_REAL = ["tlslite handshakes (transcript hashing, Finished / "
                    "binder checks, downgrade sentinel, FALLBACK_SCSV)"]
@@ -291,7 +292,9 @@ def run(job, streams=None):
             idx = ch.draw(max(1, plain[d]), "a.rec")
             ver = lay[d][idx][1] if idx < len(lay[d]) else (3, 3)
             if kind == "inject_warning":
-                body = ["0100", "015a", "0164", "0129"][ch.draw(4, "a.al")]
+                # (the last one is half an alert: one byte)
+                body = ["0100", "015a", "0164", "0129", "01"][
+                    ch.draw(5, "a.al")]
                 typ = 21
             else:
                 body, typ = "01", 20
@@ -372,6 +375,28 @@ def run(job, streams=None):
                   "%s..., the server issued %s..." %
                   (held[-1].hex()[:24] if held else None,
                    issued.hex()[:24]))
+        # what the attacker put into the handshake must not surface later:
+        # the sender of the attacked direction closes, its peer must see a
+        # plain end of stream
+        dd = desc.get("dir")
+        if dd in ("c2s", "s2c") and fired:
+            closer, reader = (pair.c, pair.s) if dd == "c2s" else \
+                (pair.s, pair.c)
+            closer.start(("close",), lambda: closer.conn.closeAsync())
+            sim.run()
+            o_r = reader.start(("read",),
+                               lambda: reader.conn.readAsync(None, 1))
+            sim.run()
+            probes["close_after_attack"] = 1
+            from tlslite.errors import TLSLocalAlert as _TLA
+            if o_r.kind == "exc" and not isinstance(o_r.exc, _TLA):
+                # (a fatal alert raised by the reader itself is a detection:
+                # tampered post-handshake records are only seen now)
+                v("attack_surfaces_after_handshake",
+                  "%s|%s|%s" % (kind, type(o_r.exc).__name__,
+                                getattr(o_r.exc, "description", "")),
+                  "both completed; then the peer's orderly close was read "
+                  "as %r" % (o_r.exc,))
         if fired and not viol:
             probes["both_complete_same"] = 1
     # ---- sentinel sub-oracle
